@@ -314,6 +314,9 @@ func report(prop, tier string, seed int, rr *RunResult) int {
 	lockedFam := map[string]int{}
 	lockedFamSeen := map[string]bool{}
 	for n := range locked {
+		if strings.HasSuffix(n, openMark) {
+			continue
+		}
 		if strings.HasSuffix(n, reachableMark) {
 			f := oblFamily(strings.TrimSuffix(n, reachableMark)) + reachableMark
 			lockedFam[f]++
@@ -374,6 +377,13 @@ func report(prop, tier string, seed int, rr *RunResult) int {
 				advProved[oblFamily(o.Name)]++
 			} else {
 				sweepOpen++
+				if o.Inlined && o.Status == "failed" && lockedFam[oblFamily(o.Name)] == 0 && !locked[oblFamily(o.Name)+openMark] {
+					// refuted, inside a helper that a contracted function executes in place, and of a family the ledger has never
+					// seen (neither discharged nor open): new code with a failing safety obligation
+					nObl++
+					violations++
+					emitViolation(e, prop, o, "counterexample")
+				}
 			}
 			continue
 		}
@@ -451,7 +461,7 @@ func report(prop, tier string, seed int, rr *RunResult) int {
 	var missing []string
 	renamed := 0
 	for n := range locked {
-		if strings.HasSuffix(n, reachableMark) {
+		if strings.HasSuffix(n, reachableMark) || strings.HasSuffix(n, openMark) {
 			continue
 		}
 		if present[n] == nil {
@@ -593,6 +603,13 @@ func LockCmd(args []string) int {
 		if o.Canary || o.Status != "proved" {
 			if !o.Canary {
 				fmt.Printf("%-10s %s  [%s] %s\n", o.Status, o.Name, strings.Join(o.Props, ","), o.Desc)
+				if o.Inlined {
+					// an obligation inside a helper executed in place that does not discharge on the unchanged tree: remembered as
+					// open, so that only NEW failing families of this kind are reported later
+					for _, p := range o.Props {
+						lf[p] = append(lf[p], oblFamily(o.Name)+openMark)
+					}
+				}
 			} else if o.Status != "proved" && isRetCanary(o.Name) {
 				// a return that is reachable under the contract: the ledger keeps how many there are per function
 				for _, p := range o.Props {
@@ -640,6 +657,7 @@ func oblFamily(n string) string {
 }
 
 const reachableMark = "~reachable"
+const openMark = "~open"
 
 func isRetCanary(name string) bool { return strings.Contains(name, "/vacuity:ret") }
 
